@@ -725,3 +725,53 @@ def canon_locals(fn: ast.AST, node: ast.AST) -> str:
             return n
 
     return ast.unparse(R().visit(copy.deepcopy(node)))
+
+
+def rename_locals(fn: ast.AST, mapping: dict[str, str]) -> ast.AST:
+    """A copy of `fn` with the local names `mapping` renamed (all Name / handler / pattern occurrences)."""
+    import copy
+
+    if not mapping or all(a == b for a, b in mapping.items()):
+        return fn
+    new = copy.deepcopy(fn)
+    for n in ast.walk(new):
+        if isinstance(n, ast.Name) and n.id in mapping:
+            n.id = mapping[n.id]
+        elif isinstance(n, ast.ExceptHandler) and n.name in mapping:
+            n.name = mapping[n.name]
+        elif isinstance(n, (ast.MatchAs, ast.MatchStar)) and n.name in mapping:
+            n.name = mapping[n.name]
+    return new
+
+
+def roles_by_definition(fn: ast.AST, roles: dict[str, str]) -> dict[str, str]:
+    """For rules written against the roles of a function's locals: {actual local name: role name} for every role whose
+    defining expression (a regex on the source text of the value of a plain / annotated assignment at any depth) is matched
+    by exactly one local.  `{role}` inside a pattern refers to the local already found for an earlier role.  A role is
+    left out when no local (or several locals) match; a role whose name is used by a *different* local is left out too."""
+    import re as _re
+
+    found: dict[str, str] = {}  # role -> actual
+    binds: list[tuple[str, str]] = []
+    for st in walk_local(fn):
+        if isinstance(st, ast.Assign) and len(st.targets) == 1 and isinstance(st.targets[0], ast.Name):
+            binds.append((st.targets[0].id, ast.unparse(st.value)))
+        elif isinstance(st, ast.AnnAssign) and isinstance(st.target, ast.Name) and st.value is not None:
+            binds.append((st.target.id, ast.unparse(st.value)))
+    all_locals = {n.id for n in ast.walk(fn) if isinstance(n, ast.Name) and isinstance(n.ctx, ast.Store)}
+    for role, pat in roles.items():
+        p = pat
+        for r0, a0 in found.items():
+            p = p.replace("{" + r0 + "}", _re.escape(a0))
+        if "{" in _re.sub(r"\{\d+(,\d*)?\}", "", p) and _re.search(r"\{[a-z_]+\}", p):
+            continue  # refers to a role that was not found
+        names = {nm for nm, v in binds if _re.fullmatch(p, v)}
+        if len(names) == 1:
+            found[role] = next(iter(names))
+    out = {}
+    for role, actual in found.items():
+        if role != actual and role in all_locals and role not in found.values():
+            continue  # the role name is taken by another local: renaming would merge two variables
+        out[actual] = role
+    # a swap (a->b, b->a) is fine; a chain a->b where b is an actual local not itself renamed was excluded above
+    return out
